@@ -63,6 +63,7 @@ type History struct {
 	PrimaryMs int    `json:"primary_ms,omitempty"`
 	Rotate    int    `json:"rotate,omitempty"`
 	Writers   int    `json:"writers,omitempty"`
+	PauseMs   int    `json:"pause_ms,omitempty"` // bg mode: pause after each request (lets the timers fire)
 	Tags      []string `json:"tags,omitempty"`
 }
 
@@ -232,6 +233,10 @@ func Gen(r *rng.Rand, o GenOpts) History {
 	}
 	if o.Shutdown {
 		h.Steps = append(h.Steps, Step{Kind: "shutdown"})
+	}
+	if h.Mode == "bg" && !o.Shutdown {
+		// timers fast enough to interleave with the requests
+		h.WalMs, h.PrimaryMs, h.Rotate, h.PauseMs = 20, 30+r.Intn(40), 2, 10+r.Intn(30)
 	}
 	return h
 }
